@@ -1665,4 +1665,135 @@ theorem once_add {env : Env} {subs : List Sub} {s : St} {tx : Tx} {p : Option Na
         exact hr (hc.symm.trans (hall e he))
 
 
+/-! ### the jwx stage: the LAST occurrence of a member decides -/
+
+theorem getLast_cons {k' k : String} {v : J} {t : List (String × J)} :
+    getLast ((k', v) :: t) k = match getLast t k with
+      | some w => some w
+      | none => if k' = k then some v else none := rfl
+
+theorem getLast_append_single {l : List (String × J)} {k' k : String} {v : J} :
+    getLast (l ++ [(k', v)]) k = if k' = k then some v else getLast l k := by
+  induction l with
+  | nil => simp [getLast]
+  | cons a t ih =>
+    obtain ⟨ka, va⟩ := a
+    rw [List.cons_append, getLast_cons, ih, getLast_cons]
+    by_cases h : k' = k
+    · simp [h]
+    · simp only [h, if_false]
+
+/-- what one member does to the private parameters and to `alg` -/
+theorem jwxMember_spec {jwkOK : Bool} {r r' : Raw} {k : String} {v : J} (h : jwxMember jwkOK r k v = .ok r') :
+    (isPrivName k = true → r'.priv = r.priv ++ [(k, v)] ∧ r'.alg = r.alg ∧ r'.kid = r.kid ∧ r'.hasJwk = r.hasJwk) ∧
+    (isPrivName k = false → r'.priv = r.priv) ∧
+    (k = "alg" → ((∃ s, v = .str s ∧ r'.alg = s) ∨ (v = .null ∧ r'.alg = ""))) ∧
+    (k ≠ "alg" → r'.alg = r.alg) ∧
+    (k = "jwk" → r'.hasJwk = true) ∧ (k ≠ "jwk" → r'.hasJwk = r.hasJwk) := by
+  unfold jwxMember at h
+  unfold isPrivName
+  by_cases h1 : k = "alg"
+  · subst h1
+    simp only [if_true] at h
+    cases v <;> simp at h <;> subst h <;> simp
+  · simp only [h1, if_false] at h
+    by_cases h2 : k = "cty"
+    · subst h2
+      simp only [if_true] at h
+      cases v <;> simp at h <;> subst h <;> simp
+    · simp only [h2, if_false] at h
+      by_cases h3 : k = "kid"
+      · subst h3
+        simp only [if_true] at h
+        cases v <;> simp at h <;> subst h <;> simp
+      · simp only [h3, if_false] at h
+        by_cases h4 : k = "jwk"
+        · subst h4
+          simp only [if_true] at h
+          split at h
+          · simp at h; subst h; simp
+          · cases h
+        · simp only [h4, if_false] at h
+          by_cases h5 : k = "crit"
+          · subst h5
+            simp only [if_true] at h
+            cases v with
+            | null => simp at h; subst h; simp
+            | arr l =>
+              simp only at h
+              split at h
+              · simp at h; subst h; simp
+              · cases h
+            | bool b => simp at h
+            | num m e => simp at h
+            | str s => simp at h
+            | obj => simp at h
+          · simp only [h5, if_false] at h
+            by_cases h6 : jwxStringMembers.contains k = true
+            · have h6' : k ∈ jwxStringMembers := by simpa using h6
+              simp only [h6, if_true] at h
+              cases v <;> simp at h <;> subst h <;> simp [h1, h2, h3, h4, h5, h6']
+            · have h6' : k ∉ jwxStringMembers := by simpa using h6
+              simp only [h6, if_false] at h
+              simp at h
+              subst h
+              simp [h1, h2, h3, h4, h5, h6']
+
+theorem jwxMembers_spec {jwkOK : Bool} : ∀ {ms : List (String × J)} {r0 r : Raw}, jwxMembers jwkOK r0 ms = .ok r →
+    (∀ k, isPrivName k = true → getLast r.priv k = match getLast ms k with
+        | some v => some v
+        | none => getLast r0.priv k) ∧
+    ((getLast ms "alg" = none ∧ r.alg = r0.alg) ∨ (∃ s, getLast ms "alg" = some (.str s) ∧ r.alg = s) ∨
+      (getLast ms "alg" = some .null ∧ r.alg = "")) ∧
+    (r.hasJwk = (r0.hasJwk || (getLast ms "jwk").isSome)) := by
+  intro ms
+  induction ms with
+  | nil =>
+    intro r0 r h
+    simp only [jwxMembers, Res.ok.injEq] at h
+    subst h
+    exact ⟨fun k _ => rfl, Or.inl ⟨rfl, rfl⟩, by simp [getLast]⟩
+  | cons a t ih =>
+    intro r0 r h
+    obtain ⟨k0, v0⟩ := a
+    unfold jwxMembers at h
+    split at h
+    · rename_i r1 h1
+      obtain ⟨i1, i2, i3⟩ := ih h
+      obtain ⟨s1, s2, s3, s4, s5, s6⟩ := jwxMember_spec h1
+      refine ⟨?_, ?_, ?_⟩
+      · intro k hk
+        rw [i1 k hk, getLast_cons]
+        cases hg : getLast t k with
+        | some w => rfl
+        | none =>
+          simp only
+          by_cases hp : isPrivName k0 = true
+          · rw [(s1 hp).1, getLast_append_single]
+            by_cases he : k0 = k <;> simp [he]
+          · have hp' : isPrivName k0 = false := by simpa using hp
+            rw [s2 hp']
+            have : k0 ≠ k := by intro he; rw [he] at hp; exact hp hk
+            simp [this]
+      · rw [getLast_cons]
+        rcases i2 with ⟨g, ha⟩ | ⟨s, g, ha⟩ | ⟨g, ha⟩
+        · rw [g]
+          simp only
+          by_cases hk : k0 = "alg"
+          · rcases s3 hk with ⟨s, hv, hs⟩ | ⟨hv, hs⟩
+            · exact Or.inr (Or.inl ⟨s, by simp [hk, hv], ha.trans hs⟩)
+            · exact Or.inr (Or.inr ⟨by simp [hk, hv], ha.trans hs⟩)
+          · exact Or.inl ⟨by simp [hk], ha.trans (s4 hk)⟩
+        · exact Or.inr (Or.inl ⟨s, by rw [g], ha⟩)
+        · exact Or.inr (Or.inr ⟨by rw [g], ha⟩)
+      · rw [i3, getLast_cons]
+        by_cases hk : k0 = "jwk"
+        · rw [s5 hk]
+          cases getLast t "jwk" <;> simp [hk]
+        · rw [s6 hk]
+          cases getLast t "jwk" <;> simp [hk]
+    · cases h
+    · cases h
+
+
 end Nuts.C06
